@@ -20,6 +20,8 @@ void supla_esp_recv_callback(void *arg, char *pdata, unsigned short len);
 void supla_esp_connectcb(void *arg);
 void supla_esp_discon_callback(void *arg);
 void c14_pvars(struct espconn *conn, int *step, int *type, int *cur, int *matched, int *offset);
+void c14_pv_canary_set(struct espconn *conn);
+int c14_pv_canary_ok(struct espconn *conn);
 
 static int codes[8], ncodes, saves;
 static void on_sent(struct espconn *e, const unsigned char *p, unsigned len, int result) {
@@ -46,7 +48,7 @@ static void run_case(int n, char **lines) {
   v_quiet = 1; v_on_sent = on_sent; v_on_flash = on_flash;
   memset(&supla_esp_cfg, 0, sizeof supla_esp_cfg);
   memset(&conn, 0, sizeof conn); memset(&tcp, 0, sizeof tcp); conn.type = ESPCONN_TCP; conn.proto.tcp = &tcp;
-  supla_esp_connectcb(&conn);
+  supla_esp_connectcb(&conn); c14_pv_canary_set(&conn);
   for (int i = 0; i < n; i++) {
     char *l = lines[i];
     char *c = strchr(l, ':'); int len = c ? hex2bytes(c + 1 + (c[1] == ' '), buf, sizeof buf) : 0;
@@ -55,7 +57,7 @@ static void run_case(int n, char **lines) {
       memcpy(&supla_esp_cfg, buf, len < (int)sizeof supla_esp_cfg ? len : (int)sizeof supla_esp_cfg);
     } else if (strncmp(l, "NEWCONN", 7) == 0) {
       supla_esp_discon_callback(&conn);
-      supla_esp_connectcb(&conn);
+      supla_esp_connectcb(&conn); c14_pv_canary_set(&conn);
     } else if (strncmp(l, "SEG", 3) == 0) {
       if (len > 65535) len = 65535;
       char *seg = malloc(len ? len : 1); memcpy(seg, buf, len);
@@ -71,6 +73,7 @@ static void run_case(int n, char **lines) {
               saves, saves ? same : 1, v_restart_count - r0, matched, step, type, cur);
       vout_hex("", &supla_esp_cfg, sizeof supla_esp_cfg);
       if (user_cmd) vout_hex("CMD : ", user_cmd, strnlen(user_cmd, CMD_MAXSIZE));
+      if (!c14_pv_canary_ok(&conn)) { vout("PVOVERRUN :"); c14_pv_canary_set(&conn); }
     }
   }
 }
